@@ -521,6 +521,10 @@ def run(pid: str, tier: str, seed: int, *, replay: dict | None = None) -> int:
         if v.rejected:
             ck.violation(f"replayed run rejected at event {v.rejected[0]}", {"check": "worker-c14", "scenario": replay["scenario"]})
         return ck.finish()
+    if replay is not None and replay.get("program") is not None:
+        from checks import c10_plugin
+        c10_plugin.run_part(ck)
+        return ck.finish()
     scs = [replay["scenario"]] if replay is not None else FAMS[pid](tier, rng)
     if replay is None:
         # the same scenario families on the Redis and RabbitMQ back-ends (fake servers), a sample of each
@@ -564,6 +568,10 @@ def run(pid: str, tier: str, seed: int, *, replay: dict | None = None) -> int:
     ck.add_tlc(v.result, f"trace validation of {len(traces)} recorded worker runs against Trace_Worker (clauses {chk})")
     ck.traces += len(traces)
     lap("traces validated")
+    if pid == "C10" and replay is None:
+        from checks import c10_plugin
+        c10_plugin.run_part(ck)
+        lap("run-on-enqueue programs validated")
     if pid in ("C03", "C09", "C10") and replay is None:
         # the same runs against the implementation-shaped Runner specification (those it has words for)
         from checks import runner_traces
